@@ -65,19 +65,50 @@ theorem fact_engine_wiring :
       "engine.Configure:NewInMemorySessionDatabase", "engine.Configure:NewMemcachedSessionDatabase",
       "engine.Configure:NewRedisSessionDatabase"] := by decide
 
-/-- key-space disjointness: over EVERY session store of auth/api/iam and vcr/issuer (regenerated), the key paths
-    "seg/seg/" are pairwise not a prefix of one another, for the "/" join of the in-memory / memcached flavour and the
-    "." join of the redis flavour — so no store, not even one whose keys the requester chooses freely (the burn-all
-    Delete of `validatePresentationNonce`, the code of a token request), can reach an entry of another store.
-    This is what lets the model's keys be pairs (namespace, id). -/
+/-- every back-end builds a full key with `strings.Join(append(prefixes, key), sep)` — a plain join that neither
+    normalises (`..`, `//`) nor escapes the key — and `Put` stores nothing silently only when the TTL is ≤ 0 (no key
+    is too long, too odd, …); the mark consumers call `PutIfAbsent(key, value)` without options, so the TTL is the
+    store's (positive: `fact_ttls_positive`) -/
+theorem fact_key_construction :
+    Facts.C05.joinExprMem = "strings.Join(append(prefixes, key), \"/\")" ∧
+    Facts.C05.joinExprMemcached = "strings.Join(append(prefixes, key), \"/\")" ∧
+    Facts.C05.joinExprRedis = "strings.Join(append(prefixes, key), \".\")" ∧
+    Facts.C05.memKeySepChar = '/' ∧ Facts.C05.redisKeySepChar = '.' ∧
+    Facts.C05.putSilentSkips = ["opts.ttl <= 0"] ∧
+    Facts.C05.pifCallArity = ["validateS2SPresentationNonce:2", "ValidateDPoPProof:2"] := by decide
+
+/-- key-space disjointness: over EVERY session store of auth/api/iam and vcr/issuer (regenerated prefix segments), the
+    store paths "seg/seg/" are pairwise not a prefix of one another, for the "/" join of the in-memory / memcached
+    flavour and the "." join of the redis flavour; the model's stores are among them. -/
 theorem fact_keyspace_disjoint :
-    pairwiseNonPrefix Facts.C05.storePathsMem = true ∧ pairwiseNonPrefix Facts.C05.storePathsRedis = true ∧
-    Facts.C05.storePathsMem.length = Facts.C05.allStorePrefixes.length ∧ Facts.C05.storePathsMem.Nodup ∧
+    pairwiseNonPrefix (Facts.C05.allStorePrefixChars.map (storePath Facts.C05.memKeySepChar)) = true ∧
+    pairwiseNonPrefix (Facts.C05.allStorePrefixChars.map (storePath Facts.C05.redisKeySepChar)) = true ∧
+    (Facts.C05.allStorePrefixChars.map (storePath Facts.C05.memKeySepChar)).Nodup ∧
+    (Facts.C05.allStorePrefixChars.map (storePath Facts.C05.redisKeySepChar)).Nodup ∧
+    Facts.C05.allStorePrefixChars.length = Facts.C05.allStorePrefixes.length ∧
+    Facts.C05.allStorePrefixChars.map (storePath Facts.C05.memKeySepChar) = Facts.C05.storePathsMem ∧
     (∀ k ∈ Kind.all, todayPrefix k ∈ Facts.C05.allStorePrefixes) := by decide
 
-theorem keyspace_disjoint (p q : List Char) (hp : p ∈ Facts.C05.storePathsMem) (hq : q ∈ Facts.C05.storePathsMem)
-    (hne : p ≠ q) (k1 k2 : List Char) : p ++ k1 ≠ q ++ k2 :=
-  pairwiseNonPrefix_disjoint _ fact_keyspace_disjoint.1 p q hp hq hne k1 k2
+/-- … hence, with `getFullKey` modelled literally (`joinKey` = strings.Join, no normalisation), two different stores never
+    share a full key, WHATEVER the keys are — separators, `..` segments, any length: no store whose keys the requester
+    chooses (the code burned by the token endpoint, the challenges burned by `validatePresentationNonce`, request-object
+    ids, redirect tokens) can reach an entry of another store.  This is what lets the model's keys be pairs (namespace, id). -/
+theorem keyspace_disjoint (p q : List (List Char)) (hp : p ∈ Facts.C05.allStorePrefixChars) (hq : q ∈ Facts.C05.allStorePrefixChars)
+    (hne : storePath Facts.C05.memKeySepChar p ≠ storePath Facts.C05.memKeySepChar q) (k1 k2 : List Char) :
+    joinKey Facts.C05.memKeySepChar p k1 ≠ joinKey Facts.C05.memKeySepChar q k2 :=
+  joinKey_disjoint _ _ fact_keyspace_disjoint.1 p q hp hq hne k1 k2
+
+theorem keyspace_disjoint_redis (p q : List (List Char)) (hp : p ∈ Facts.C05.allStorePrefixChars) (hq : q ∈ Facts.C05.allStorePrefixChars)
+    (hne : storePath Facts.C05.redisKeySepChar p ≠ storePath Facts.C05.redisKeySepChar q) (k1 k2 : List Char) :
+    joinKey Facts.C05.redisKeySepChar p k1 ≠ joinKey Facts.C05.redisKeySepChar q k2 :=
+  joinKey_disjoint _ _ fact_keyspace_disjoint.2.1 p q hp hq hne k1 k2
+
+/-- the join really is literal: a `..` segment in a key stays in the full key -/
+example : joinKey '/' ["oauth".toList, "code".toList] "../../nonceonce/J".toList = "oauth/code/../../nonceonce/J".toList := by decide
+
+/-- `Put` is total on keys (any length, any characters): the entry is visible right after it -/
+theorem put_total_on_keys (incl : Bool) (st : Store) (now ttl : Nat) (k : Key) (v : String) (h : 0 < ttl) :
+    stGet incl (stPut st k ⟨v, now + ttl⟩) now k = some v := put_visible incl st now ttl k v h
 
 /-- the one-time stores are used by exactly these functions: the four issuing functions `Put` (fresh random keys),
     every other access is one of the modelled consumers -/
